@@ -6,14 +6,14 @@ export CARGO_TARGET_DIR=/tmp/wt/target_shared CARGO_NET_OFFLINE=true
 cd $WT || exit 2
 git checkout -q -- . 2>/dev/null
 git clean -fdq -e seeded -e target 2>/dev/null
-cp seeded/demo.rs desert_macro/tests/seeded_demo.rs
+DEMODIR=${3:-desert_macro}; mkdir -p $DEMODIR/tests; cp seeded/demo.rs $DEMODIR/tests/seeded_demo.rs
 # (c) without the change
-cargo test --offline -p desert_macro --test seeded_demo > /tmp/wt/v_c.log 2>&1; C=$?
+cargo test --offline -p $DEMODIR --test seeded_demo > /tmp/wt/v_c.log 2>&1; C=$?
 git apply seeded/patch.diff || { echo '{"error":"patch does not apply"}' > $OUT; exit 1; }
 # (b) with the change
-cargo test --offline -p desert_macro --test seeded_demo > /tmp/wt/v_b.log 2>&1; B=$?
+cargo test --offline -p $DEMODIR --test seeded_demo > /tmp/wt/v_b.log 2>&1; B=$?
 # (a) suite with the change, demo removed
-rm desert_macro/tests/seeded_demo.rs
+rm $DEMODIR/tests/seeded_demo.rs
 cargo test --workspace --no-fail-fast --offline > /tmp/wt/v_a.log 2>&1; A=$?
 PASSED=$(grep -E "^test result" /tmp/wt/v_a.log | sed -E 's/.* ([0-9]+) passed.*/\1/' | paste -sd+ | bc)
 FAILED=$(grep -E "^test result" /tmp/wt/v_a.log | sed -E 's/.* ([0-9]+) failed.*/\1/' | paste -sd+ | bc)
